@@ -459,6 +459,7 @@ class Unit:
         for sub in kw.get('sub', '').split(';;'):
             if '=>' in sub:
                 a, c = sub.split('=>', 1)
+                a, c = a.replace('\\n', '\n'), c.replace('\\n', '\n')
                 if a not in b:
                     raise AnchorLost('body substitution anchor not found in %s: %s' % (name, a))
                 b = b.replace(a, c)
